@@ -40,7 +40,7 @@ class Spec:
         c, rest = op[0], op[1:]
         if c == 'w' or c == 'c':
             b = bytes.fromhex(rest)
-            room = (self.p - self.g) if c == 'w' else ((self.p - self.g) % (1 << 32))
+            room = self.p - self.g
             if not self.abort and not room < self.B:
                 return 'blocked'
             self.buf += b
